@@ -54,6 +54,7 @@ PROPS["C15"] = {
 
 PROPS["C14"] = {
     "level": "proof",
+    "prop_modules": ["Flounder.Props.C14", "Flounder.Props.C14Sym", "Flounder.Props.C14Bound"],
     "budget": {"quick": [("c14", 4000)], "thorough": [("c14", 300000)], "search": [("c14", 600000)]},
     "rule": "valid positions (play-outs from a 27-FEN corpus + constructed positions filtered by Valid) and a malformed stream (overlapping/arbitrary bitboards), evaluated in random order on ONE shared Evaluator with re-evaluations of earlier boards; every valid board is also evaluated side-flipped and mirrored; non-trivial = distinct board with a non-zero score",
     "trusted_base": [KERNEL, AXIOMS, TIE, EXTRACT, "i32 modelled as Int (no-overflow theorem covers every 8-bitboard input); Rust `/` = Int.tdiv"],
@@ -62,6 +63,7 @@ PROPS["C14"] = {
 }
 PROPS["C11"] = {
     "level": "proof",
+    "prop_modules": ["Flounder.Props.C11", "Flounder.Props.C11Xor"],
     "budget": {"quick": [("c11", 400)], "thorough": [("c11", 40000)], "search": [("c11", 80000)]},
     "rule": "for each REAL key draw (ZobristTable::new(), 837 keys, KeysGood checked) 40 boards (valid + malformed): hash vs model vs XOR-of-features spec; counter variants must hash equal; every single-component edit (side, each right, ep, man removed/recoloured/retyped/moved) must hash different; transposed move orders must hash equal; distinct = distinct boards",
     "trusted_base": [KERNEL, AXIOMS, TIE, "rand::thread_rng is not modelled: theorems quantify over all key tables; KeysGood (837 keys non-zero, pairwise distinct) is checked on every draw the run makes"],
@@ -70,9 +72,51 @@ PROPS["C11"] = {
 }
 PROPS["C12"] = {
     "level": "proof",
+    "prop_modules": ["Flounder.Props.C12", "Flounder.Props.C12Parse"],
     "budget": {"quick": [("c12", 5000)], "thorough": [("c12", 400000)], "search": [("c12", 800000)]},
     "rule": "go commands through the REAL parser (hook verif_go_budget): the four clock pairs in random order, pairs missing, values from {0,1,4999,5000,5001,5025,random up to 2^40}; irregular stream with depth/movetime/infinite/junk/missing values/bad numbers; for every well-formed command a twin with the opponent's values replaced must give the same budget and both must fit the mover's clock; distinct = distinct command texts",
     "trusted_base": [KERNEL, AXIOMS, TIE, EXTRACT, "u64 milliseconds modelled as Nat (no_u64_overflow covers values below 2^62 ms)", "str::split_whitespace / str::parse::<u64> modelled by digitsVal/parseU64 over List Char"],
     "assumptions": ["clock values below 2^62 ms", "hook verif_go_budget observes the parameters handle_go_command hands to find_best_move"],
+    "finding_key": lambda sf: None,
+}
+
+CHESS_RULE = "valid positions: the 27-FEN corpus (castling through/out of/into check, ep pinned on the 5th rank, ep capturing the checker, ep exposing a diagonal, double check, promotions capturing corner rooks with rights set, mate/stalemate, 8 queens, 16 pawns on the 7th ranks), every successor of the corpus positions, random play-outs (0-60 plies, biased towards captures/castles/ep/promotions) and constructed positions (kings + up to 20 random men, rights/ep sampled, filtered by Valid); distinct = distinct boards"
+PROPS["C01"] = {
+    "level": "other",
+    "prop_modules": ["Flounder.Props.C01"],
+    "budget": {"quick": [("c01", 6000)], "thorough": [("c01", 400000)], "search": [("c01", 800000)]},
+    "rule": CHESS_RULE + "; per board three operations: the SET of generated moves (sorted, duplicates kept) vs model vs Spec.legalMoves, the ORDERED list vs model, the check test vs Spec.inCheck",
+    "explanation": "C01's full theorem (GenerateMovesExact: Nodup + generated = Spec.legal + check test exact, for every Valid board) is stated in Props/C01.lean and is not closed yet; what is machine-checked so far is listed under 'theorems' (filter structure, double check, and the table exactness it relies on via Spec.LookupExact when Props/C10 is closed). Until the layers L2-L7 of DESIGN.md are closed this property is decided per position by the three-way correspondence: real generate_moves vs the Lean model vs the executable FIDE spec (Spec/Chess.lean) — a bounded, sampled decision, labelled as such.",
+    "trusted_base": [KERNEL, AXIOMS, TIE, EXTRACT, "Spec/Chess.lean (FIDE rules on a mailbox board, ~230 lines) is the meaning of 'legal'"],
+    "assumptions": ["the full refinement theorem is open: assurance for this property currently comes from the differential run against the executable spec, not from a closed proof"],
+    "finding_key": lambda sf: None,
+    "timeout": 3000,
+}
+PROPS["C02"] = {
+    "level": "other",
+    "budget": {"quick": [("c02", 8000)], "thorough": [("c02", 1500000)], "search": [("c02", 2000000)]},
+    "rule": "every legal move of every corpus position, then random games of 1-600 plies from corpus/generated valid positions with the board compared (all 8 bitboards, side, rights, ep, counters) after EVERY ply against the model and against Spec.play; plus a malformed stream (arbitrary boards x arbitrary moves) for make_move totality incl. panics; distinct = distinct (board, move) pairs",
+    "explanation": "C02's full theorem (MakeMoveRefines: never panics, abs(b') = Spec.play, Valid preserved, hence by induction over any legal history) is stated in Props/C02.lean; see 'theorems' for what is discharged in this run. The three-way correspondence (clone_with_move vs model vs Spec.play) runs on every check.",
+    "trusted_base": [KERNEL, AXIOMS, TIE, EXTRACT, "Spec/Chess.lean play/keepsRight is the meaning of 'successor position'"],
+    "assumptions": ["u8/i8 square arithmetic modelled by Nat/Int (wrap-around unreachable on valid boards)"],
+    "finding_key": lambda sf: None,
+}
+PROPS["C17"] = {
+    "level": "other",
+    "budget": {"quick": [("c17", 5000)], "thorough": [("c17", 300000)], "search": [("c17", 600000)]},
+    "rule": CHESS_RULE + "; per board: generate_quiescence_moves (sorted) vs model vs {legal m | captures or promotes or gives check by the rules}, and the move list search_until_quiet itself selects (hook inside the search) vs model vs (in check ? all legal : tactical)",
+    "explanation": "Machine-checked: the selection is exactly the filter of the generated moves by capture|promotion|check, all generated moves when in check (Props/C17.lean). The identification of the engine's is_check with 'gives check under the rules' (FullStatement) depends on C01/C02 and is decided per position by the correspondence until those close.",
+    "trusted_base": [KERNEL, AXIOMS, TIE, "hook verif_quiescence_move_set records the list chosen inside search_until_quiet"],
+    "assumptions": ["FullStatement is open pending C01/C02"],
+    "finding_key": lambda sf: None,
+}
+PROPS["C10"] = {
+    "level": "other",
+    "budget": {"quick": [("c10x", 20000)], "thorough": [("c10x", 2000000)], "search": [("c10x", 2000000)]},
+    "rule": "EXHAUSTIVE on the tables: every subset of every square's relevant mask for rook and bishop (107 648 lookups), all 128 leaper entries, all 64x64 segment/line entries, masks/magics/relevant bits of all 128 (piece, square); plus random FULL 64-bit occupancies (bits off the mask must not matter); each compared: engine vs model vs geometric spec (sliderReach/onSegment/onLine/knightStep/kingStep)",
+    "exhaustive": True,
+    "explanation": "FULL STATEMENT Spec.LookupExact LookupTable.init. Discharged so far: see 'theorems'. The per-square kernel enumeration (Lemmas/Magic*) upgrades this to proof when integrated; meanwhile the table part is decided exhaustively on the executable side for the constants in the source now.",
+    "trusted_base": [KERNEL, AXIOMS, TIE, EXTRACT],
+    "assumptions": ["until lookup_exact is integrated the all-2^64-occupancies claim rests on the exhaustive mask-subset comparison plus sampled full occupancies"],
     "finding_key": lambda sf: None,
 }
